@@ -99,7 +99,7 @@ func (s *Submit) IDecode(data []byte) error {
 	s.ChargeTermID = b.ReadCStringN(21)
 	s.DestTermIDCount = b.ReadUint8()
 	s.DestTermID = nil // a PDU value decoded into before must not keep the earlier frame's recipients
-	for i := 0; i < int(s.DestTermIDCount); i++ {
+	for i := 0; i < int(s.DestTermIDCount) && b.Error() == nil; i++ {
 		tmp := b.ReadCStringN(21)
 		s.DestTermID = append(s.DestTermID, tmp)
 	}
